@@ -158,12 +158,49 @@ def r2_convex(ctx):
     try:
         before = branch[: branch.index(comp)]
         sym_exec(before, nz)
-        got = nz.tosym(dc.value)
+        val_exprs = [dc.value]
+        # the entry may be computed by a helper method of the class: `self._helper(v, new[k], step)` - every return of the helper, with
+        # its parameters replaced by the arguments, is an averaged value (weights / wrappers are C06's business: `.value` and
+        # `type(x)(E)` are transparent here)
+        if isinstance(dc.value, ast.Call) and isinstance(dc.value.func, ast.Attribute) and U(dc.value.func.value) in ("self", "cls", "type(self)") and f.cls is not None:
+            hm = ctx.ix.method(f.cls, dc.value.func.attr)
+            if hm is not None:
+                hp = [p_.arg for p_ in hm.node.args.args]
+                if hm.kind in ("method", "class") and hp:
+                    hp = hp[1:]
+                binding = dict(zip(hp, dc.value.args))
+                binding.update({k_.arg: k_.value for k_ in dc.value.keywords if k_.arg})
+
+                class _Subst(ast.NodeTransformer):
+                    def visit_Name(self, n):
+                        return binding.get(n.id, n) if isinstance(n.ctx, ast.Load) else n
+
+                    def visit_Attribute(self, n):
+                        self.generic_visit(n)
+                        return n.value if n.attr in ("value", "weighted_value") else n
+
+                    def visit_Call(self, n):
+                        self.generic_visit(n)
+                        if isinstance(n.func, ast.Call) and U(n.func.func) == "type" and len(n.args) >= 1:
+                            return n.args[0]
+                        if U(n.func) == "WeightedTensor" and n.args:
+                            return n.args[0]
+                        return n
+                import copy as _copy
+                rets_ = [r_ for r_ in statements(hm.node) if isinstance(r_, ast.Return) and r_.value is not None]
+                val_exprs = [_Subst().visit(_copy.deepcopy(r_.value)) for r_ in rets_]
+                if not val_exprs:
+                    raise NFUnsupported(f"helper {hm.qual} returns nothing")
+        gots = [nz.tosym(v_) for v_ in val_exprs]
+        got = gots[0]
     except NFUnsupported as e:
         ctx.unknown("C05.R2", f, comp, f"averaging expression outside the supported subset: {e}")
         return
     e_ref = (kk - nn) ** (-pp)
     ref = (1 - e_ref) * Sprev + e_ref * snew
+    for extra_ in gots[1:]:
+        if not equal(extra_, ref):
+            got = extra_
     extra = got.free_symbols - {kk, nn, pp, Sprev, snew}
     if extra:
         ctx.violation("C05.R2", f, comp, f"averaged value depends on {sorted(map(str, extra))}")
